@@ -36,3 +36,22 @@ type DstB struct {
 	Same   []int
 	Shared []int
 }
+
+// Named slice types (C16 speaks about slice FIELDS; a defined slice type is one).
+type IntList []int
+
+type ItemList []Item
+
+type SrcN struct {
+	Both   IntList
+	ToRaw  IntList
+	ToList []int
+	Items  ItemList
+}
+
+type DstN struct {
+	Both   IntList
+	ToRaw  []int
+	ToList IntList
+	Items  ItemList
+}
